@@ -268,26 +268,90 @@ func (fc *FnCtx) havocCall(h *HeapState, mods map[string]bool) {
 		if ei.escapedAt(a, fc.curBlock, fc.curIdx) {
 			continue
 		}
-		names := map[string]bool{}
-		switch x := a.(type) {
-		case *ssa.Alloc:
-			t := derefType(x.Type())
-			addTypeHeaps("M."+typeName(t), t, names)
-		case *ssa.MakeSlice:
-			et := x.Type().Underlying().(*types.Slice).Elem()
-			addTypeHeaps("A."+typeName(et), et, names)
+		fc.restoreLocal(h, &old, a, c, mods)
+	}
+}
+
+// restoreLocal: the heaps of local allocation a (reference term c) keep their pre-havoc contents.
+func (fc *FnCtx) restoreLocal(h, old *HeapState, a ssa.Value, c string, mods map[string]bool) {
+	names := map[string]bool{}
+	switch x := a.(type) {
+	case *ssa.Alloc:
+		t := derefType(x.Type())
+		addTypeHeaps("M."+typeName(t), t, names)
+	case *ssa.MakeSlice:
+		et := x.Type().Underlying().(*types.Slice).Elem()
+		addTypeHeaps("A."+typeName(et), et, names)
+	}
+	for _, name := range sortedKeys(names) {
+		if !(mods["*"] || mods[name]) {
+			continue
 		}
-		for _, name := range sortedKeys(names) {
-			if !(mods["*"] || mods[name]) {
-				continue
+		sort, known := fc.heapSort[name]
+		if !known {
+			continue
+		}
+		oldT := fc.getHeapTerm(old, name, sort)
+		newT := fc.getHeapTerm(h, name, sort)
+		fc.heapSet(h, name, sort, fmt.Sprintf("(store %s %s (select %s %s))", newT, c, oldT, c))
+	}
+}
+
+// havocLoop havocs what a loop may modify at its head, but a local allocation made before the loop whose
+// address is never handed out and that the loop body does not store into keeps its contents.
+func (fc *FnCtx) havocLoop(h *HeapState, mods map[string]bool, l *Loop) {
+	if len(mods) == 0 {
+		return
+	}
+	old := h.clone()
+	fc.havocSet(h, mods)
+	ei := fc.escapeInfo()
+	for a, c := range fc.allocSite {
+		in, ok := a.(ssa.Instruction)
+		if !ok || len(ei.sinks[a]) > 0 || l.Body[in.Block()] || writtenInLoop(a, l) {
+			continue
+		}
+		fc.restoreLocal(h, &old, a, c, mods)
+	}
+}
+
+func rootOf(v ssa.Value, depth int) ssa.Value {
+	if depth > 12 {
+		return v
+	}
+	switch x := v.(type) {
+	case *ssa.FieldAddr:
+		return rootOf(x.X, depth+1)
+	case *ssa.IndexAddr:
+		return rootOf(x.X, depth+1)
+	case *ssa.Slice:
+		return rootOf(x.X, depth+1)
+	case *ssa.ChangeType:
+		return rootOf(x.X, depth+1)
+	}
+	return v
+}
+
+func writtenInLoop(a ssa.Value, l *Loop) bool {
+	for b := range l.Body {
+		for _, in := range b.Instrs {
+			switch x := in.(type) {
+			case *ssa.Store:
+				if rootOf(x.Addr, 0) == a {
+					return true
+				}
+			case *ssa.MapUpdate:
+				if rootOf(x.Map, 0) == a {
+					return true
+				}
+			case ssa.CallInstruction:
+				for _, arg := range x.Common().Args {
+					if rootOf(arg, 0) == a {
+						return true
+					}
+				}
 			}
-			sort, known := fc.heapSort[name]
-			if !known {
-				continue
-			}
-			oldT := fc.getHeapTerm(&old, name, sort)
-			newT := fc.getHeapTerm(h, name, sort)
-			fc.heapSet(h, name, sort, fmt.Sprintf("(store %s %s (select %s %s))", newT, c, oldT, c))
 		}
 	}
+	return false
 }
